@@ -328,14 +328,24 @@ def _r3(model, res, c):
                 for d in node.decorator_list:
                     for x in ast.walk(d):
                         deco_ids.add(id(x))
+        # statements executed once at import (module top level, also inside a module-level loop over a table)
+        import_time = set()
+        for node in m.tree.body:
+            if not isinstance(node, (ast.FunctionDef, ast.ClassDef)):
+                for x in ast.walk(node):
+                    if isinstance(x, (ast.FunctionDef, ast.Lambda)):
+                        break
+                else:
+                    for x in ast.walk(node):
+                        import_time.add(id(x))
         for n in ast.walk(m.tree):
             if isinstance(n, ast.Attribute) and n.attr == 'register_for':
                 n_ref += 1
-                ok = id(n) in deco_ids
+                ok = id(n) in deco_ids or id(n) in import_time
                 if not ok:
                     res.ob('R3', '%s:%s' % (m.name, m.qualname_of(n)), 'reference %s' % src(m.parent(n) or n), False)
                     res.violation('R3', '%s:%s:register_for-at-runtime' % (m.name, m.qualname_of(n)), m.where(n),
-                                  'register_for is used outside a module-level decorator: the shared registry can change after import',
+                                  'register_for is used inside a function body (not as a module-level decorator or import-time statement): the shared registry can change after import',
                                   func=m.qualname_of(n))
     res.ob('R3', 'package', 'all %d references to register_for are module-level decorators' % n_ref, True)
     res.floor('register_for decorator uses', n_ref, 100)
